@@ -75,6 +75,9 @@ def obligations(tier):
         Ob('two_log_passes_normal_and_alternate_data', 'ch', 'one logical file with a DFSR for normal data (3 channels) and a DFSR for alternate data (2 channels), 0..2 normal records between them, '
            'then every sequence of 4 records of either type, TIF on/off: both log passes indexed (frames, first X, frame -> record map) and loaded (all frames; a stepped slice of one channel)',
            e2e, harness='C06_logpass', func='two_log_passes', timeout=280 if q else 900, stubs=['SymFile', 'PyStruct']),
+        Ob('samples_and_bursts_addressing', 'ch', 'a channel of 1..3 samples x 1..3 bursts per frame between two scalar channels, 2 records of 2 frames; full, stepped and single-channel loads: '
+           'value(frame, channel, sub-channel, sample, burst) and the per-channel view equal the recorded values',
+           e2e + ['FrameSet._retOffsetTree/valueIdxInFrame/value/frame_channel_sub_channel_values'], harness='C06_logpass', func='samples_and_bursts', timeout=280 if q else 900, stubs=['SymFile', 'PyStruct']),
         Ob('load_wide_channel_subsets', 'ch', 'file with 12 channels (direct X) or 11 (implied X), 2 data records of 2 frames; EVERY non-empty channel subset (12-bit mask), step 1..2: '
            'values in ascending channel order and X of every loaded frame',
            e2e, harness='C06_logpass', func='load_wide_subsets', timeout=280 if q else 1200, parts=32, stubs=['SymFile', 'PyStruct']),
